@@ -27,6 +27,7 @@ def side(choice):
     return out
 
 
+@core.guarded(lambda ca, cb, flag, *a: dict(A=list(ca), B=list(cb), combineMultipleQuerySources=flag))
 def check_case(ca, cb, flag, acc):
     cmpr = AlignmentComparer(AlignmentRowComparer(flag))
     A, B = side(ca), side(cb)
